@@ -14,6 +14,7 @@
              and the stored JSON
 It does NOT decide text equality of the canonical form for every schema.
 """
+import re
 from ..lib import *
 from ..core import short_loc, op_place, const_int, const_str
 from .c03 import fn_by_label
@@ -498,6 +499,14 @@ def canon_state_rule(ctx):
     # counter of named types written that the generations are taken from
     ok = a is not None and len(tys) == 4 and sum(1 for t in tys if t == 'alloc::vec::Vec<bool>') == 1 and \
         sum(1 for t in tys if t in ('alloc::vec::Vec<usize>', 'alloc::vec::Vec<core::option::Option<usize>>')) == 1 and sum(1 for t in tys if t == 'usize') == 1
+    if a is not None and not ok and len(tys) == 3 and sum(1 for t in tys if t == 'usize') == 1:
+        # the two per-node tables kept as ONE table of a private two-field struct {written: bool, entered_at: usize}
+        for t in tys:
+            m_ = re.match(r'alloc::vec::Vec<(.+)>$', t)
+            e_ = f.adts.get(m_.group(1)) if m_ else None
+            if e_ and e_.get('kind') == 'struct' and e_.get('variants'):
+                et = sorted(x['ty'] for x in e_['variants'][0]['fields'])
+                ok = et in (['bool', 'usize'], ['bool', 'core::option::Option<usize>'])
     ctx.ob('STATE', 'canonical-writer-fields', ok, short_loc(a['span']) if a else None,
            'fields of the recursive canonical-form writer: %s (reviewed: the writer, two per-node tables and the named-types counter)' % ([x['name'] + ': ' + x['ty'][:40] for x in a['variants'][0]['fields']] if a else None))
 
@@ -512,7 +521,8 @@ def canon_extra(ctx, w, fam=None):
         for bb, t in b.calls():
             if call_matches(t, ['IndexMut::index_mut', 'IndexMut<I>>::index_mut', 'Index::index', 'Index<I>>::index']):
                 vo = origin(b, t['args'][0])
-                if 'named_type_written' in vo.fields:
+                if 'named_type_written' in vo.fields or (vo.fields & (visited_field_names(f) - set(VISITED_FIELDS)) and
+                                                          'named_type_written' in fields_read_from_call(b, t)):
                     n_idx += 1
                     io = origin(b, t['args'][1])
                     if io.has_arith() or 'idx' not in io.fields:
